@@ -509,6 +509,7 @@ pub fn storm_cfg(rng: &Rng) -> Cfg {
         faults: vec![],
         // sometimes a long run of consecutive interruptions on top (retry budgets)
         intr_burst: if rng.chance(1, 2) { Some((rng.range(0, 40), rng.range(200, 2500))) } else { None },
+        lift: None,
     }
 }
 
@@ -660,6 +661,7 @@ pub fn gen_cfg(rng: &Rng, input: &[u8], interrupts: bool) -> Cfg {
         cuts: gen_cuts(rng, input),
         intr_burst: if interrupts && rng.chance(1, 40) { Some((rng.small(12), rng.range(7, 40))) } else { None },
         faults: vec![],
+        lift: None,
     }
 }
 
